@@ -321,6 +321,15 @@ pub fn make_event(id: u32, empty: bool) -> Event {
     Event { tags, metadata }
 }
 
+/// u64::MAX stands for Duration::MAX: "never act on anything but urgent events"
+pub fn throttle_of(ms: u64) -> Duration {
+    if ms == u64::MAX {
+        Duration::MAX
+    } else {
+        Duration::from_millis(ms)
+    }
+}
+
 pub fn prio_of(p: u8) -> Priority {
     match p {
         0 => Priority::Low,
@@ -385,7 +394,7 @@ fn apply_change(c: &Change) {
             config.keyboard_events(false);
         }
         Change::Throttle(ms) => {
-            config.throttle(Duration::from_millis(*ms));
+            config.throttle(throttle_of(*ms));
         }
         Change::ReplaceActionHandler => {
             let g = lib(|l| {
@@ -789,7 +798,7 @@ async fn e2_root(scn: E2Scn) {
     let mut config = Config::default();
     config.event_channel_size = scn.event_cap as usize;
     config.error_channel_size = scn.error_cap as usize;
-    config.throttle(Duration::from_millis(scn.throttle));
+    config.throttle(throttle_of(scn.throttle));
     if !scn.default_filterer_first {
         config.filterer(SimFilterer { gen: 0 });
     }
@@ -854,7 +863,7 @@ async fn e2_root(scn: E2Scn) {
     }
     log(Ev::Note { what: "producers-done", a: 0, b: 0 });
     // quiescent stretch: longer than any window plus any handler
-    let quiet = scn.throttles().iter().copied().max().unwrap_or(0) + 2 * scn.max_handler() + 1000;
+    let quiet = scn.throttles().iter().copied().filter(|t| *t != u64::MAX).max().unwrap_or(0) + 2 * scn.max_handler() + 1000;
     settle(quiet).await;
     if scn.probe && !monitor.is_finished() {
         log(Ev::EvSend { id: PROBE_ID, prio: 1, src: 200 });
